@@ -18,6 +18,7 @@ import (
 	"net/netip"
 	"sort"
 	"strings"
+	"sync"
 	"time"
 
 	"github.com/postalsys/muti-metroo/internal/agent"
@@ -48,6 +49,21 @@ type Scenario struct {
 	Routes      []string `json:"routes"`
 	Domains     []string `json:"domains"`
 	Ops         []Op     `json:"ops"`
+	// Storm, when set, replaces Ops: rounds of concurrent identical add
+	// requests followed by one remove (see runStorm)
+	Storm *Storm `json:"storm,omitempty"`
+}
+
+// Storm describes a concurrency scenario: in every round G goroutines call
+// ManageRoute("add") for textual forms of ONE network at the same moment;
+// when all have returned the route is removed once. Every interleaving of
+// the adds is equivalent to some sequence of adds, so after the remove the
+// network must be gone from the routing table AND from the allow list.
+type Storm struct {
+	Forms      []string `json:"forms"` // textual forms of the same network
+	Goroutines int      `json:"goroutines"`
+	Rounds     int      `json:"rounds"`
+	Dest       string   `json:"dest"` // a dialable destination inside the network
 }
 
 // ---------------------------------------------------------------------------
@@ -190,6 +206,10 @@ func (m monitorSet) nameMatches(name string) bool {
 }
 
 func (e *env) runScenario(sc Scenario) {
+	if sc.Storm != nil {
+		e.runStorm(sc)
+		return
+	}
 	c := e.c
 	a, cleanup, err := policy.NewAgent(func(cfg *config.Config) {
 		cfg.Exit.Enabled = sc.ExitEnabled
@@ -566,4 +586,146 @@ func dynStrings(a *agent.Agent) []string {
 	}
 	sort.Strings(out)
 	return out
+}
+
+// runStorm: concurrent add requests for one network, then one remove.
+func (e *env) runStorm(sc Scenario) {
+	c := e.c
+	st := sc.Storm
+	a, cleanup, err := policy.NewAgent(func(cfg *config.Config) {
+		cfg.Exit.Enabled = sc.ExitEnabled
+		cfg.Exit.Routes = sc.Routes
+	})
+	if err != nil {
+		c.Fail("agent-new-failed", err.Error(), sc)
+		return
+	}
+	defer cleanup()
+	w := policy.NewWriter()
+	var attached *exit.Handler
+	attach := func() {
+		if h := a.VerifExitHandler(); h != nil && h != attached {
+			h.SetWriter(w)
+			h.Start()
+			attached = h
+		}
+	}
+	attach()
+	defer func() {
+		if h := a.VerifExitHandler(); h != nil {
+			h.Stop()
+		}
+	}()
+	_, target, err := net.ParseCIDR(st.Forms[0])
+	if err != nil {
+		panic(err)
+	}
+	var lastMetric uint16
+	var allowAfterAdds, dynAfterAdds string
+	failed := false
+	for round := 0; round < st.Rounds && !failed; round++ {
+		start := make(chan struct{})
+		var wg sync.WaitGroup
+		for g := 0; g < st.Goroutines; g++ {
+			wg.Add(1)
+			go func(g int) {
+				defer wg.Done()
+				<-start
+				a.ManageRoute("add", st.Forms[g%len(st.Forms)], uint16(1+g))
+			}(g)
+		}
+		close(start)
+		wg.Wait()
+		attach()
+		h := a.VerifExitHandler()
+		if round == st.Rounds-1 || round == 0 {
+			// snapshot for the model: the storm is equivalent to one add with the metric that won
+			if res, err := a.ManageRoute("list", "", 0); err == nil && len(res.Routes) == 1 {
+				lastMetric = res.Routes[0].Metric
+			}
+			allowAfterAdds, dynAfterAdds = snapshot(a)
+		}
+		if _, err := a.ManageRoute("remove", st.Forms[0], 0); err != nil {
+			c.Fail("storm-remove-failed", fmt.Sprintf("round %d: remove after %d concurrent adds: %v", round, st.Goroutines, err), sc)
+			return
+		}
+		c.Count("storm:rounds")
+		// monitor: the network is in no configured exit network and no dynamic route any more
+		for _, s := range h.VerifAllowedRoutes() {
+			if s == target.String() {
+				failed = true
+				c.Fail("allow-entry-without-route",
+					fmt.Sprintf("round %d: after %d concurrent add %s and one remove, the allow list still holds %s although no dynamic route exists (dynamic: %v)",
+						round, st.Goroutines, st.Forms[0], s, dynStrings(a)), sc)
+				break
+			}
+		}
+		if failed || round == st.Rounds-1 {
+			// a real open request for a destination inside the removed network
+			dest := net.ParseIP(st.Dest).To4()
+			e.nextID += 2
+			sid := e.nextID
+			so := &protocol.StreamOpen{RequestID: sid + 1000000, AddressType: protocol.AddrTypeIPv4, Address: dest, Port: uint16(e.sink4.Port), EphemeralPubKey: policy.EphemeralPub()}
+			w.Expect(sid)
+			a.VerifProcessFrame(e.peer, &protocol.Frame{Type: protocol.FrameStreamOpen, StreamID: sid, Payload: so.Encode()})
+			r, ok := w.Wait(sid, 20*time.Second)
+			if !ok {
+				c.Fail("open-no-answer", "storm: no answer to STREAM_OPEN within 20 s", sc)
+				return
+			}
+			if r.Ack {
+				e.totalAcks++
+				la, _ := e.sink4.WaitFor(int(r.BoundPort), 10*time.Second)
+				h.HandleStreamClose(e.peer, sid)
+				inCfg := false
+				for _, rt := range sc.Routes {
+					if _, n, err := net.ParseCIDR(rt); err == nil && sc.ExitEnabled && n.Contains(dest) {
+						inCfg = true
+					}
+				}
+				if !inCfg {
+					c.Fail("dial-outside-permitted-set",
+						fmt.Sprintf("round %d: after concurrent adds and the remove of %s the exit handler connected to %v, which lies in no configured exit network and in no current dynamic route %v; allow list %v",
+							round, st.Forms[0], la, dynStrings(a), h.VerifAllowedRoutes()), sc)
+				}
+			}
+		}
+	}
+	allowEnd, dynEnd := snapshot(a)
+	p := parseCIDRText(st.Forms[0])
+	var routes []string
+	for _, r := range sc.Routes {
+		q := parseCIDRText(r)
+		routes = append(routes, fmt.Sprintf("(%s, %s, %d%%N)", vh.CoqBool(q.is6), bigN(q.addr), q.plen))
+	}
+	steps := []string{
+		fmt.Sprintf("(OpAdd %s %d%%N, ObsManage ROk, %s, %s)", coqCIDR(p), lastMetric, allowAfterAdds, dynAfterAdds),
+		fmt.Sprintf("(OpRemove %s, ObsManage ROk, %s, %s)", coqCIDR(p), allowEnd, dynEnd),
+	}
+	c.Case(sc.Name, true, sc)
+	e.coq = append(e.coq, fmt.Sprintf("(mkCfg %s %s [],\n  %s)", vh.CoqBool(sc.ExitEnabled), vh.CoqList(routes), policy.CoqListNL(steps)))
+}
+
+// snapshot renders the allow list and the dynamic table for the model.
+func snapshot(a *agent.Agent) (string, string) {
+	allow := "None"
+	if h := a.VerifExitHandler(); h != nil {
+		var items []string
+		for _, s := range h.VerifAllowedRoutes() {
+			if cn, err := canonNetFromString(s); err == nil {
+				items = append(items, cn)
+			}
+		}
+		allow = "(Some " + vh.CoqList(items) + ")"
+	}
+	var dyn []string
+	if res, err := a.ManageRoute("list", "", 0); err == nil {
+		sort.Slice(res.Routes, func(i, j int) bool { return res.Routes[i].Network < res.Routes[j].Network })
+		for _, r := range res.Routes {
+			if cn, err := canonNetFromString(r.Network); err == nil {
+				dyn = append(dyn, fmt.Sprintf("(%s, %d%%N)", cn, r.Metric))
+			}
+		}
+	}
+	return allow, vh.CoqList(dyn)
 }
